@@ -1,6 +1,7 @@
 package rules
 
 import (
+	"go/token"
 	"go/types"
 	"fmt"
 
@@ -20,6 +21,7 @@ func c10(p *core.Prog, r *core.Report) {
 	r.Rule("C10-R4", "E6 provenance", 5, "frames carry the id of the request they answer")
 	c10Writer(p, r)
 	c10Refuse(p, r)
+	c10WriterDrains(p, r)
 	c10Relay(p, r)
 	c10IDs(p, r)
 }
@@ -142,6 +144,40 @@ func c10Refuse(p *core.Prog, r *core.Report) {
 			}
 			r.Check(okG, "C10-R2", fname(f), construct, p.Pos(g.Pos()), "dominated by the exchange's error check", "a response fragment can be built or queued after the exchange expired or failed")
 		}
+	}
+}
+
+// c10WriterDrains: on a graceful stop the writer loop closes the socket only
+// when its send queue is empty; frames already queued (the rest of a
+// multi-fragment response, a terminal error frame) are written first.
+func c10WriterDrains(p *core.Prog, r *core.Report) {
+	f := mustFunc(p, r, "", "Connection", "writeFrames")
+	if f == nil {
+		return
+	}
+	sendChF := p.Field("", "Connection", "sendCh")
+	n := 0
+	for _, c := range core.CallsIn(f, "Connection.closeNetwork") {
+		n++
+		ok := false
+		for _, cm := range factsAt(c.Block()).cmps {
+			lenOf := func(v ssa.Value) bool {
+				cl, isC := v.(*ssa.Call)
+				if !isC {
+					return false
+				}
+				b, isB := cl.Call.Value.(*ssa.Builtin)
+				return isB && b.Name() == "len" && core.LoadedField(core.ThroughCell(cl.Call.Args[0])) == sendChF
+			}
+			k, isK := core.ConstInt(cm.Y)
+			if lenOf(cm.X) && isK && k == 0 && (cm.Op == token.LEQ || cm.Op == token.EQL) {
+				ok = true
+			}
+		}
+		r.Check(ok, "C10-R2", fname(f), "socket closed on stop only when the send queue is empty", p.Pos(c.Pos()), "closeNetwork() is behind len(sendCh) <= 0", "the writer can close the socket while response frames are still queued: the caller sees a response without its last fragment")
+	}
+	if n == 0 {
+		r.Errorf("writeFrames: no closeNetwork call found")
 	}
 }
 
@@ -306,6 +342,7 @@ func c10Relay(p *core.Prog, r *core.Report) {
 			r.Check(stops, "C10-R3", fname(f), "handleCallReq stops when "+g.Name()+" handled the call", p.Pos(c.Pos()), "the handled arm reaches no registration or forward", "a call already answered by "+g.Name()+" is relayed as well")
 		})
 	}
+	errorFrameBeforeCompletion(p, r, "C10-R3")
 	if f := mustFunc(p, r, "", "Relayer", "timeoutRelayItem"); f != nil {
 		sends := core.CallsIn(f, "Connection.SendSystemError")
 		ok := len(sends) == 1
@@ -443,4 +480,60 @@ func lateTestHelper(p *core.Prog, f *ssa.Function, get ssa.CallInstruction) (*ss
 		found = ifi
 	})
 	return found, why
+}
+
+// completionCalls: the calls that end a pending unit of work of a connection
+// (an exchange, a relay item's pending count) and therefore may move a closing
+// connection to closed. Being on this list is only a filter: the call must
+// also reach checkExchanges in the call graph.
+var completionCalls = []string{
+	"messageExchange.shutdown", "messageExchange.inboundExpired", "messageExchangeSet.removeExchange", "messageExchangeSet.expireExchange",
+	"Relayer.decrementPending", "Relayer.failRelayItem", "Relayer.finishRelayItem", "Relayer.timeoutRelayItem",
+	"InboundCallResponse.doneSending", "OutboundCallResponse.doneReading", "reqResReader.failed", "reqResWriter.failed", "Connection.checkExchanges",
+}
+
+func endsPendingWork(c ssa.CallInstruction) bool {
+	_, ok := core.IsCall(c.(ssa.Instruction), completionCalls...)
+	return ok
+}
+
+// errorFrameBeforeCompletion (shared by C10, C07 and C20): see the comment in the body.
+func errorFrameBeforeCompletion(p *core.Prog, r *core.Report, rule string) {
+	// an error frame is handed to the connection before anything on the same
+	// path can re-evaluate the close state: SendSystemError refuses to queue
+	// once the connection is closed, and removing the last pending item (an
+	// exchange, a relay item's pending count) can close it
+	if ce := p.Func("", "Connection", "checkExchanges"); ce != nil {
+		closers := p.CallersClosureWithin(map[*ssa.Function]bool{ce: true}, p.InAnalysed)
+		n := 0
+		for _, f := range p.SrcFuncs {
+			if pkgOf(f) != core.Root || closers[f] && f.Name() == "checkExchanges" {
+				continue
+			}
+			for _, snd := range core.CallsIn(f, "Connection.SendSystemError") {
+				n++
+				bad := ""
+				core.EachInstr(f, func(i ssa.Instruction) {
+					c, ok := i.(*ssa.Call)
+					if !ok || bad != "" || ssa.Instruction(c) == snd.(ssa.Instruction) {
+						return
+					}
+					if _, isSend := core.IsCall(i, "Connection.SendSystemError"); isSend {
+						return
+					}
+					if !p.MayCall(c, closers) || !endsPendingWork(c) {
+						return
+					}
+					if core.ReachAvoiding(f, i, func(j ssa.Instruction) bool { return j == snd.(ssa.Instruction) }, nil, nil).Found {
+						bad = calleeShort(c) + " at " + p.Pos(i.Pos())
+					}
+				})
+				r.Check(bad == "", rule, fname(f), "error frame sent before any close-state re-evaluation", p.Pos(snd.Pos()),
+					"no call that can reach checkExchanges precedes the SendSystemError on any path", "a call that can close the connection ("+bad+") runs before the error frame is handed to it: on a closing connection the frame is dropped and the caller sees EOF")
+			}
+		}
+		if n < 5 {
+			r.Errorf("SendSystemError census found %d sites (expected at least 5)", n)
+		}
+	}
 }
